@@ -25,19 +25,21 @@ Print Assumptions c16_dtype_float_boundary_refuted.
 
 (* the integer type chosen contains the rounded bounds and is the first candidate that does *)
 Theorem c16_dtype_wide_enough : forall lo hi k,
+  0 < snd lo -> 0 < snd hi ->            (* bounds are rationals: positive denominators *)
   choose_int_dtype lo hi = Some k ->
   (k < 8)%nat /\
   fst (range_of k) <= round_half_even lo /\ round_half_even hi <= snd (range_of k) /\
   forall j, (j < k)%nat ->
      ~ (fst (range_of j) <= round_half_even lo /\ round_half_even hi <= snd (range_of j)).
-Proof. exact choose_sound. Qed.
+Proof. intros lo hi k _ _. exact (choose_sound lo hi k). Qed.
 Print Assumptions c16_dtype_wide_enough.
 
 (* whenever some candidate type can hold the range, one is chosen (no fall-back) *)
 Theorem c16_dtype_complete : forall lo hi c,
+  0 < snd lo -> 0 < snd hi ->
   In c candidates -> fst c <= round_half_even lo -> round_half_even hi <= snd c ->
   exists k, choose_int_dtype lo hi = Some k.
-Proof. exact choose_complete. Qed.
+Proof. intros lo hi c _ _. exact (choose_complete lo hi c). Qed.
 Print Assumptions c16_dtype_complete.
 
 (* every value between the measured minimum and maximum fits the chosen type after rounding *)
